@@ -299,7 +299,7 @@ func runC14(cfg *vh.Config) error {
 	}
 
 	// ---- stream 1: bundles under K configurations (direct oracle: everything byte-identical)
-	nB := cfg.Scale(28, 300)
+	nB := cfg.Scale(28, 140)
 	K := 8
 	if cfg.Tier == "thorough" {
 		K = 64
@@ -479,7 +479,7 @@ func runC14(cfg *vh.Config) error {
 	// at the same index of different files (finding 28); (b) every file of every bundle above;
 	// (c) a bundle with a hand-written .proto source using several option spellings.
 	{
-		reps := cfg.Scale(56, 400)
+		reps := cfg.Scale(56, 160)
 		type printJob struct {
 			Name string
 			F    protoreflect.FileDescriptor
